@@ -460,3 +460,20 @@ Proof.
 Qed.
 
 End Threads.
+
+(** * the repaired loader's pipe over its real upstream is Pipe_Model's pipe on the model's list *)
+From TU Require Import Inference_Unfused Inference_Fused.
+Lemma scan1_ok_prefix texts : forall k, fst (scan1 k texts) = ok_prefix str texts.
+Proof.
+  induction texts as [|[s|] r IH]; intros k; cbn [scan1 ok_prefix]; try reflexivity.
+  specialize (IH (S k)). destruct (scan1 (S k) r) as [l e]. cbn [fst] in *. rewrite IH. reflexivity.
+Qed.
+
+Lemma fused_is_pipe_model (B : Type) (f : nat * str -> B) (d : nat * str) texts W tr s :
+  urun str B f d true (uinit str B texts W) tr = Some s ->
+  run _ _ f d (init _ _ (enumerate (fst (scan1 0 texts))) W) tr
+  = Some (with_xs str B (u_base str B s) (enumerate (fst (scan1 0 texts)))).
+Proof.
+  intros H. destruct (fused_is_pipe_l str B f d texts W tr s H) as [Hr _].
+  unfold absu, full, enum in Hr. rewrite (scan1_ok_prefix texts 0). exact Hr.
+Qed.
